@@ -235,47 +235,68 @@ theorem stepCreatePool_ok {s s' : State} {id sender desc lpt start rpb total edi
     | some q => simp [hg] at hfresh
   exact ⟨s1, s2, m, hs.1, hs.2, htot, hvr, by omega, h1, h2, hnone, hm, rfl⟩
 
-/-- what `apply` does: a block end, nothing, or an accepted message of a user account -/
+/-- what gov's EndBlocker does with one proposal (`cpPass` / `cpReject` / `cpFailDeposit`) -/
+def GovStep (s s' : State) : Prop :=
+  ∃ pid, s' = (govVote s pid true).1 ∨ s' = (govVote s pid false).1 ∨ s' = (govFailDeposit s pid).1
+
+/-- what `apply` does: a block end, nothing, an accepted message of a user account, or gov's
+EndBlocker on one proposal -/
 theorem apply_cases (s : State) (op : Op) :
     (∃ n, op = .endBlocks n ∧ apply s op = (endBlocks n s).1) ∨ apply s op = s ∨
-    (stepMsg s op = .ok (apply s op) ∧ isModuleAcc op.sender = false ∧ ∀ n, op ≠ .endBlocks n) := by
+    (stepMsg s op = .ok (apply s op) ∧ isModuleAcc op.sender = false ∧ ∀ n, op ≠ .endBlocks n) ∨
+    GovStep s (apply s op) := by
   cases op with
   | endBlocks n => exact Or.inl ⟨n, rfl, rfl⟩
+  | cpPass pid => exact Or.inr (Or.inr (Or.inr ⟨pid, Or.inl rfl⟩))
+  | cpReject pid => exact Or.inr (Or.inr (Or.inr ⟨pid, Or.inr (Or.inl rfl)⟩))
+  | cpFailDeposit pid => exact Or.inr (Or.inr (Or.inr ⟨pid, Or.inr (Or.inr rfl)⟩))
+  | cpSubmit proposer title c deposit =>
+    by_cases hm : isModuleAcc proposer = true
+    · right; left; simp [apply, step, Op.sender, hm]
+    · cases hsm : stepMsg s (.cpSubmit proposer title c deposit) with
+      | error e => right; left; simp [apply, step, Op.sender, hm, hsm]
+      | ok s' => right; right; left; simp [apply, step, Op.sender, hm, hsm]
+  | fundCp sender amt =>
+    by_cases hm : isModuleAcc sender = true
+    · right; left; simp [apply, step, Op.sender, hm]
+    · cases hsm : stepMsg s (.fundCp sender amt) with
+      | error e => right; left; simp [apply, step, Op.sender, hm, hsm]
+      | ok s' => right; right; left; simp [apply, step, Op.sender, hm, hsm]
   | createPool sender desc lpt start rpb total editable =>
     by_cases hm : isModuleAcc sender = true
     · right; left; simp [apply, step, Op.sender, hm]
     · cases hsm : stepMsg s (.createPool sender desc lpt start rpb total editable) with
       | error e => right; left; simp [apply, step, Op.sender, hm, hsm]
-      | ok s' => right; right; simp [apply, step, Op.sender, hm, hsm]
+      | ok s' => right; right; left; simp [apply, step, Op.sender, hm, hsm]
   | destroyPool sender id =>
     by_cases hm : isModuleAcc sender = true
     · right; left; simp [apply, step, Op.sender, hm]
     · cases hsm : stepMsg s (.destroyPool sender id) with
       | error e => right; left; simp [apply, step, Op.sender, hm, hsm]
-      | ok s' => right; right; simp [apply, step, Op.sender, hm, hsm]
+      | ok s' => right; right; left; simp [apply, step, Op.sender, hm, hsm]
   | adjustPool sender id add rpb =>
     by_cases hm : isModuleAcc sender = true
     · right; left; simp [apply, step, Op.sender, hm]
     · cases hsm : stepMsg s (.adjustPool sender id add rpb) with
       | error e => right; left; simp [apply, step, Op.sender, hm, hsm]
-      | ok s' => right; right; simp [apply, step, Op.sender, hm, hsm]
+      | ok s' => right; right; left; simp [apply, step, Op.sender, hm, hsm]
   | stake sender id denom amt =>
     by_cases hm : isModuleAcc sender = true
     · right; left; simp [apply, step, Op.sender, hm]
     · cases hsm : stepMsg s (.stake sender id denom amt) with
       | error e => right; left; simp [apply, step, Op.sender, hm, hsm]
-      | ok s' => right; right; simp [apply, step, Op.sender, hm, hsm]
+      | ok s' => right; right; left; simp [apply, step, Op.sender, hm, hsm]
   | unstake sender id denom amt =>
     by_cases hm : isModuleAcc sender = true
     · right; left; simp [apply, step, Op.sender, hm]
     · cases hsm : stepMsg s (.unstake sender id denom amt) with
       | error e => right; left; simp [apply, step, Op.sender, hm, hsm]
-      | ok s' => right; right; simp [apply, step, Op.sender, hm, hsm]
+      | ok s' => right; right; left; simp [apply, step, Op.sender, hm, hsm]
   | harvest sender id =>
     by_cases hm : isModuleAcc sender = true
     · right; left; simp [apply, step, Op.sender, hm]
     · cases hsm : stepMsg s (.harvest sender id) with
       | error e => right; left; simp [apply, step, Op.sender, hm, hsm]
-      | ok s' => right; right; simp [apply, step, Op.sender, hm, hsm]
+      | ok s' => right; right; left; simp [apply, step, Op.sender, hm, hsm]
 
 end Irismod.Proofs.Farm
